@@ -158,7 +158,7 @@ type setting struct {
 func sequential(c *evid.Ctx, depth int) {
 	sizes := []int{0, 10, 60, 200}
 	dts := []int64{0, 999, 1000}
-	settings := []setting{{64, 1000, 0}, {64, 1000, 40}, {256, 1000, 100}, {256, 1, 300}, {1 << 16, 1000, 100}}
+	settings := []setting{{64, 1000, 0}, {64, 1000, 40}, {256, 1000, 100}, {256, 1, 300}, {1 << 16, 1000, 100}, {64, 1000, 1 << 20}, {128, 1000, 1 << 20}}
 	type op struct {
 		kind string // append | direct
 		size int
